@@ -139,9 +139,7 @@ func mutate(res gedcom.Nodes, idx int, op string) bool {
 	case "leaves":
 		// add below every node: exposes sharing anywhere
 		for _, x := range all {
-			if _, isSex := x.(*gedcom.SexNode); !isSex {
-				x.AddNode(marker())
-			}
+			x.AddNode(marker())
 		}
 	default:
 		n.AddNode(marker())
